@@ -11,7 +11,7 @@
     A merge of a and b replaces sim(a,c), sim(b,c) by their mediant (or by something smaller when c is a
     neighbour of one only), which is what keeps both invariants. *)
 From Coq Require Import Permutation Lia QArith Lqa Psatz.
-From SKN Require Import Base.Util Model.Dendrogram Model.Cuts Model.Hierarchy Model.Paris Proofs.CutsProofs.
+From SKN Require Import Base.Util Model.Dendrogram Model.Cuts Model.Hierarchy Model.Paris Proofs.DendroBase.
 Set Warnings "-notation-overridden". (* keep: the harness wants a line with a parenthesis after the imports *)
 
 (** * The analytic core: mediant inequalities *)
@@ -952,7 +952,7 @@ Proof.
       repeat (destruct H as [H|H];
               [assert (Ei : fst (fst (i, j, w)) = i) by reflexivity; assert (Ej : snd (fst (i, j, w)) = j) by reflexivity;
                assert (Ew : snd (i, j, w) = w) by reflexivity; rewrite <- H in Ei, Ej, Ew; cbn [fst snd] in Ei, Ej, Ew;
-               subst i j w; vm_compute; intuition (auto; discriminate)|]).
+               subst i j w; split; [vm_compute; repeat (first [left; reflexivity | right]) | split; [lia | split; [lia | reflexivity]]]|]).
       destruct H.
   - split; [reflexivity|]. intros q H. vm_compute in H. intuition (subst q; reflexivity).
   - vm_compute. reflexivity.
